@@ -124,7 +124,7 @@ func runC14(c *mon.Ctx) {
 		c.DistinctBytes(w.Bytes)
 	})
 	c.MarkExhaustive("all ordered pairs of the 16 message kinds followed by FE, F8, a sysex and a note: 8 option sets x 2 levels x 2 chunkings")
-	c.Each("random", c.N(10_000, 150_000), func(i int64, r *mon.Rand) {
+	c.Each("random", c.N(10_000, 1_500_000), func(i int64, r *mon.Rand) {
 		buf := uint32(r.Pick(0, 16, 64))
 		lc := liveCfg{buf: buf}
 		msgs := gen.LiveSequence(r, r.Range(2, 30), lc.bufSize(), true)
